@@ -18,14 +18,14 @@ RUNS = {"quick": 12000}
 CROSS_BACKEND = True
 US = 10**6
 
-ZONES = gen_dt.ALL_NAMED + ["America/Argentina/Buenos_Aires", "Africa/Monrovia", "Europe/Dublin", "Asia/Pyongyang",
-                            "America/Caracas", "Antarctica/Troll", "Pacific/Norfolk", "Australia/Eucla"]
+EXTRA_ZONES = ["America/Argentina/Buenos_Aires", "Africa/Monrovia", "Europe/Dublin", "Asia/Pyongyang",
+               "America/Caracas", "Antarctica/Troll", "Pacific/Norfolk", "Australia/Eucla"]
 FIXED = gen_dt.FIXED + [1, -1, 59, 3599, 86399, -86399, 12345, -9876]
 NATIVE_KINDS = ["zoneinfo", "pytz", "dateutil", "timezone"]
 
 
 def _zone(r):
-    return r.choice(FIXED) if r.random() < 0.3 else r.choice(ZONES)
+    return r.choice(FIXED) if r.random() < 0.3 else r.choice(gen_dt.ALL_NAMED + EXTRA_ZONES)
 
 
 def _instant(r, zone):
@@ -129,7 +129,7 @@ def gen(rp, rw, tier):
                 for fold in rp.sample([0, 1], 2):
                     pool.append({"$": "dt", "f": w, "tz": z, "fold": fold})
                     meta.append({"inst": ts[fold], "zone": z, "kind": "pendulum:constructed"})
-                twin_target = rp.choice([zz for zz in ZONES if zz != z])
+                twin_target = rp.choice([zz for zz in gen_dt.ALL_NAMED + EXTRA_ZONES if zz != z])
     # a shared set of fixed offsets several clients will ask for while the cache is cold
     hot = rw.sample(FIXED, 3)
     actors = []
@@ -177,7 +177,7 @@ def gen(rp, rw, tier):
                 ops.append(rp.choice([["pcall", "timezone", [o]],
                                       ["pcall", "parse", ["2021-03-04T05:06:07%s" % _iso_off(o)]] if o % 60 == 0 else ["pcall", "timezone", [o]],
                                       ["pcall", "datetime", [2020, 1, 2, 3, 4, 5], {"tz": {"$": "tz", "k": o}}],
-                                      ["pcall", "timezone", [rp.choice(ZONES)]]]))
+                                      ["pcall", "timezone", [rp.choice(gen_dt.ALL_NAMED + EXTRA_ZONES)]]]))
             else:
                 # there and back again
                 z = _zone(rp)
